@@ -51,7 +51,15 @@ func genC12Packet(t *rapid.T, w *world.World, rec *kit.Recorder) kit.Transfer {
 }
 
 func runC12(w *world.World, c caseHistory, rec *kit.Recorder) error {
+	return runC12On(w, nil, c, rec)
+}
+
+func runC12On(w *world.World, l *world.Lab, c caseHistory, rec *kit.Recorder) error {
 	m := kit.NewMachine(w)
+	if l != nil {
+		m.Stack = l.Stack
+		l.Begin()
+	}
 	successes, refused := 0, 0
 	keys := map[kit.StatKey]bool{}
 	for i, s := range c.History {
@@ -71,6 +79,9 @@ func runC12(w *world.World, c caseHistory, rec *kit.Recorder) error {
 				dp, dc := kit.Destination(t.Route)
 				keys[kit.StatKey{SrcProto: kit.ProtoIBC, SrcCp: world.NobleChannel(t.Channel), DstProto: dp, DstCp: dc, Denom: t.Denom}] = true
 				rec.Label("transfer", "success/"+t.Route.Kind)
+				if o.Run.Denom != t.Denom {
+					rec.Label("transfer", "success with a denomination change (two entries)")
+				}
 			case orbiter && !o.Out.Success:
 				refused++
 				rec.Label("transfer", "refused")
@@ -111,7 +122,53 @@ func TestC12History(t *testing.T) {
 	rec.Require("history", "non-trivial (>=2 successes on >=2 keys, >=1 refused)", 20)
 }
 
+// TestC12Lab runs the fold in the LAB world, where a denomination-changing action produces two
+// statistics entries per transfer.
+func TestC12Lab(t *testing.T) {
+	l := lab(t)
+	w := l.W
+	rec := kit.NewRecorder(t, "C12")
+	opt := kit.HistOpt{
+		MinSteps: 4, MaxSteps: maxSteps() + 10,
+		PacketW: 85, AdminW: 10, EnvW: 5,
+		Packet: func(rt *rapid.T) kit.Transfer {
+			tr := genC06(rt, l).Transfer
+			if tr.AmountInt().Cmp(maxC12Huge) > 0 {
+				rec.Exclude("amount above 2^248 (statistics are 256-bit by type)")
+				tr.Amount, tr.Actions = "1000000", nil
+			}
+			if kit.Chance(rt, "garbage", 10) {
+				m := pick(rt, "garbage/memo", []string{"", "{}", `{"orbiter":{}}`, "not json"})
+				tr.RawMemo = &m
+			}
+			return tr
+		},
+		Admin: kit.AdminOpt{ForeignSignerPct: 10, InvalidPct: 10},
+		Env:   kit.EnvOpt{Kinds: []string{"reescrow", "ftf_pause", "ftf_unpause", "burn_limit"}},
+	}
+	rapid.Check(t, func(rt *rapid.T) {
+		c := caseHistory{History: kit.GenHistory(rt, opt)}
+		rec.Eval()
+		if err := runC12On(w, l, c, rec); err != nil {
+			rec.Fail(rt, c, "%v", err)
+		}
+	})
+	rec.Require("transfer", "success with a denomination change (two entries)", 30)
+}
+
 func init() {
+	kit.RegisterReplay("TestC12Lab", func(raw json.RawMessage) error {
+		c, err := decode[caseHistory](raw)
+		if err != nil {
+			return fmt.Errorf("harness: %w", err)
+		}
+		if labW == nil {
+			if labW, labErr = world.NewLab(prodW); labErr != nil {
+				return fmt.Errorf("harness: %w", labErr)
+			}
+		}
+		return runC12On(prodW, labW, c, nil)
+	})
 	kit.RegisterReplay("TestC12History", func(raw json.RawMessage) error {
 		c, err := decode[caseHistory](raw)
 		if err != nil {
